@@ -53,3 +53,40 @@ Proof. exact (lsf_callback_crc_ok scratch fd_derandomize fd_deinterleave fd_depu
 Lemma fd_lsf_callback_crc_ok_history h s obs cb :
   In obs (fst (fd_run s h)) -> In cb (snd obs) -> cb_type cb = FLsf -> crc30 (cb_bytes cb) = 0%N.
 Proof. exact (lsf_callback_crc_ok_history scratch fd_derandomize fd_deinterleave fd_depuncture fd_viterbi fd_golay h s obs cb). Qed.
+
+(* ---- C05: LICH unpacking with the real Golay decoder (uses C04) *)
+From M17 Require Import ImplGolay SpecGolay LemmasGolay_E LemmasGolay_F.
+
+Lemma fd_unpack_lich_corrects fr (w0 w1 w2 w3 e0 e1 e2 e3 : N) :
+  (w0 < 4096 -> w1 < 4096 -> w2 < 4096 -> w3 < 4096 ->
+   e0 < 2 ^ 24 -> e1 < 2 ^ 24 -> e2 < 2 ^ 24 -> e3 < 2 ^ 24 ->
+   (weight e0 <= 3 -> weight e1 <= 3 -> weight e2 <= 3 -> weight e3 <= 3 ->
+   codeword fr 0 = N.lxor (golay_encode24 w0) e0 -> codeword fr 1 = N.lxor (golay_encode24 w1) e1 ->
+   codeword fr 2 = N.lxor (golay_encode24 w2) e2 -> codeword fr 3 = N.lxor (golay_encode24 w3) e3 ->
+   unpack_lich fd_golay fr = (lich_of_words w0 w1 w2 w3, true)))%N.
+Proof. intros W0 W1 W2 W3 E0 E1 E2 E3 K0 K1 K2 K3 C0 C1 C2 C3.
+  destruct (x_decode_corrects w0 e0 W0 E0 K0) as (o0 & G0 & D0).
+  destruct (x_decode_corrects w1 e1 W1 E1 K1) as (o1 & G1 & D1).
+  destruct (x_decode_corrects w2 e2 W2 E2 K2) as (o2 & G2 & D2).
+  destruct (x_decode_corrects w3 e3 W3 E3 K3) as (o3 & G3 & D3).
+  rewrite <- C0 in G0. rewrite <- C1 in G1. rewrite <- C2 in G2. rewrite <- C3 in G3.
+  rewrite (unpack_lich_words fd_golay fr o0 o1 o2 o3 G0 G1 G2 G3). rewrite D0, D1, D2, D3. reflexivity. Qed.
+
+Lemma fd_unpack_lich_bits (fr : list Z) (q0 q1 q2 q3 : list bool) (e0 e1 e2 e3 : N) :
+  (length q0 = 12%nat -> length q1 = 12%nat -> length q2 = 12%nat -> length q3 = 12%nat ->
+  e0 < 2 ^ 24 -> e1 < 2 ^ 24 -> e2 < 2 ^ 24 -> e3 < 2 ^ 24 ->
+  weight e0 <= 3 -> weight e1 <= 3 -> weight e2 <= 3 -> weight e3 <= 3 ->
+  codeword fr 0 = N.lxor (golay_encode24 (bits_N q0)) e0 -> codeword fr 1 = N.lxor (golay_encode24 (bits_N q1)) e1 ->
+  codeword fr 2 = N.lxor (golay_encode24 (bits_N q2)) e2 -> codeword fr 3 = N.lxor (golay_encode24 (bits_N q3)) e3 ->
+  unpack_lich fd_golay fr = (pack_bits (q0 ++ q1 ++ q2 ++ q3), true))%N.
+Proof. intros L0 L1 L2 L3 E0 E1 E2 E3 K0 K1 K2 K3 C0 C1 C2 C3.
+  assert (B : forall q, length q = 12%nat -> (bits_N q < 4096)%N).
+  { intros q Lq. pose proof (all_lists_spec 12 (fun q => N.ltb (bits_N q) 4096) ltac:(vm_cast_no_check (eq_refl true)) q Lq) as H.
+    apply N.ltb_lt in H. exact H. }
+  rewrite (fd_unpack_lich_corrects fr _ _ _ _ e0 e1 e2 e3 (B _ L0) (B _ L1) (B _ L2) (B _ L3) E0 E1 E2 E3 K0 K1 K2 K3 C0 C1 C2 C3).
+  rewrite lich_of_words_bits by assumption. reflexivity. Qed.
+
+Lemma fd_consts_c05 : (ConstsFramedecoder.max_lich_fragment = 5 /\ ConstsFramedecoder.seg_mask = 63 /\
+  ConstsFramedecoder.seg_full = 63 /\ ConstsFramedecoder.frag_shift = 5 /\ ConstsFramedecoder.frag_mask = 7)%N /\
+  ConstsFramedecoder.frag_copy_len = 5%nat /\ ConstsFramedecoder.frag_stride = 5%nat.
+Proof. repeat split; reflexivity. Qed.
